@@ -307,6 +307,35 @@ func init() {
 		v, y := bigVal(f, recv, st), bigVal(f, args[0], st)
 		return []Val{Sc{Ite(Lt(v, y), IntLit(-1), Ite(Eq(v, y), IntLit(0), IntLit(1)))}}
 	}
+	// avalanchego/utils/maybe.Maybe[T]: struct {hasValue bool; value T}
+	const mb = "github.com/ava-labs/avalanchego/utils/maybe."
+	maybeStruct := func(f *Frame, call *ast.CallExpr) *types.Struct {
+		t := f.pkg.TypesInfo.Types[call].Type
+		return f.resolve(t).Underlying().(*types.Struct)
+	}
+	externs[mb+"Some"] = func(f *Frame, call *ast.CallExpr, recv Val, args []Val, st *State) []Val {
+		u := maybeStruct(f, call)
+		return []Val{StructV{Typ: u, F: []Val{Sc{TTrue}, args[0]}}}
+	}
+	externs[mb+"Nothing"] = func(f *Frame, call *ast.CallExpr, recv Val, args []Val, st *State) []Val {
+		t := f.resolve(f.pkg.TypesInfo.Types[call].Type)
+		return []Val{f.in.zeroVal(t, f)}
+	}
+	mget := func(recv Val, f *Frame, st *State) StructV {
+		if p, ok := recv.(PtrV); ok {
+			return f.in.load(st, p.To, f).(StructV)
+		}
+		return recv.(StructV)
+	}
+	externs[mb+"(Maybe).IsNothing"] = func(f *Frame, call *ast.CallExpr, recv Val, args []Val, st *State) []Val {
+		return []Val{Sc{Not(mget(recv, f, st).F[0].(Sc).T)}}
+	}
+	externs[mb+"(Maybe).HasValue"] = func(f *Frame, call *ast.CallExpr, recv Val, args []Val, st *State) []Val {
+		return []Val{Sc{mget(recv, f, st).F[0].(Sc).T}}
+	}
+	externs[mb+"(Maybe).Value"] = func(f *Frame, call *ast.CallExpr, recv Val, args []Val, st *State) []Val {
+		return []Val{mget(recv, f, st).F[1]}
+	}
 	externs["math/big.NewInt"] = func(f *Frame, call *ast.CallExpr, recv Val, args []Val, st *State) []Val {
 		c := f.in.newCell("bigint", CVar, nil)
 		st.store[c] = Sc{args[0].(Sc).T}
